@@ -12,6 +12,7 @@ import SphericalVerif.Model.Modes
           meth <add|subtract|multiply|divide> <Modes> <other> [trunc]
           meth <conjugate|conjugate_inplace|real|imag|norm> <Modes>
           conjrow <method|inplace|ufunc> <s> <L>   terms|termlist <L1> <L2> <Lfg> copy <route|view|trunc> <nested 0|1> <s> <L>
+          addrow <add|sub> <L1> <L2> <n|o|a|b> <s>    mulout <L1> <L2> <L> <o|a|b>
     `none` = unknown op. -/
 namespace ModesOps
 open Model.Modes
@@ -76,7 +77,6 @@ def showErr : Err → String
   | .notImplementedError => "notimplerror"
   | .indexError => "indexerror"
   | .attributeError => "attrerror"
-  | .unsafeWrite => "unsafe"
 
 def showOutcome : Outcome → String
   | .modes o none => showObj o
@@ -269,6 +269,48 @@ def step (toks : List String) : Option String :=
     let Lfg ← Lfg.toInt?
     pure (String.intercalate " " ((terms L1 L2 Lfg).map fun t =>
       s!"{t.1},{t.2.1},{t.2.2.1},{t.2.2.2.1},{t.2.2.2.2}"))
+  | ["addrow", name, L1, L2, alias, sp] => do
+    let sp ← sp.toInt?
+    -- entries of np.add / np.subtract(f, g, out=…): f[p] = (p+1, 0), g[p] = (0, p+1), a separate `out` holds (10^6, 10^6)
+    let L1 ← L1.toInt?
+    let L2 ← L2.toInt?
+    let k1 := (Gen.Ysize 0 L1).toNat
+    let k2 := (Gen.Ysize 0 L2).toNat
+    let n := (Gen.Ysize 0 (max L1 L2)).toNat
+    let comb : Int × Int → Int × Int → Int × Int :=
+      if name == "sub" then fun a b => (a.1 - b.1, a.2 - b.2) else fun a b => (a.1 + b.1, a.2 + b.2)
+    let mem : Nat → Row (Int × Int) := fun i =>
+      if i = 0 then ⟨fun p => ((p : Int) + 1, 0)⟩ else if i = 1 then ⟨fun p => (0, (p : Int) + 1)⟩
+      else ⟨fun _ => (1000000, 1000000)⟩
+    let out ← match alias with
+      | "n" => some none
+      | "o" => some (some 2)
+      | "a" => some (some 0)
+      | "b" => some (some 1)
+      | _ => none
+    let (mem', b) := addEntries comb (0, 0) k1 k2 mem 0 1 3 out
+    -- the constructor then zeroes the result (in place) below |s|
+    let row := stored sp 0 (max L1 L2) (mem' b).get (0, 0)
+    pure (String.intercalate " " ((List.range n).map fun p => s!"{(row p).1},{(row p).2}"))
+  | ["mulout", L1, L2, L, alias] => do
+    -- does np.multiply(f, g, out=…) hold the same entries as np.multiply(f, g)?  (symbolic terms, in order)
+    let L1 ← L1.toInt?
+    let L2 ← L2.toInt?
+    let L ← L.toInt?
+    let n := (Gen.Ysize 0 L).toNat
+    let mem : Nat → Row (List (Int × Int × Int)) := fun i =>
+      if i = 0 then ⟨fun p => [((p : Int) + 1, 0, 0)]⟩ else if i = 1 then ⟨fun p => [(0, (p : Int) + 1, 0)]⟩
+      else ⟨fun _ => [(-1, -1, -1)]⟩
+    let val := fun (f g : Nat → List (Int × Int × Int)) (t : Term) =>
+      [(((f (pos t.1 t.2.1)).map (·.1)).sum, ((g (pos t.2.2.1 t.2.2.2.1)).map (·.2.1)).sum, t.ell3)]
+    let out ← match alias with
+      | "o" => some (some 2)
+      | "a" => some (some 0)
+      | "b" => some (some 1)
+      | _ => none
+    let (m0, b0) := mulEntries (· ++ ·) val [] L1 L2 L mem 0 1 3 none
+    let (m1, b1) := mulEntries (· ++ ·) val [] L1 L2 L mem 0 1 3 out
+    pure (if (List.range n).all (fun p => (m0 b0).get p == (m1 b1).get p) then "same" else "differs")
   | ["copy", route, nested, s, L] => do
     let s ← s.toInt?
     let L ← L.toInt?
